@@ -225,7 +225,63 @@ class Scheduler:
         return tr.normalise_impl(self.im, [e for e in self.events[i]])
 
 
-def run_schedule(u, setup, calls, schedule=None, rng=None, mode="th", pids=None, fmts=None, max_steps=5000, env=None, sticky=0.0, on_step=None):
+class Dfs:
+    """Systematic (stateless, replay-based) exploration of the interleavings of the synchronisation steps: a thread keeps
+    running until its next operation is a `with condition:` block or a wait (or it blocks / finishes); only there is the
+    next thread a decision, and so is the waiter a notify() wakes.  One object drives many runs: run() until done()."""
+
+    def __init__(self, seed=0, budget=1000):
+        import random as _r
+        self.prefix, self.trace, self.runs, self.budget, self.complete = [], [], 0, budget, False
+        self.perm = _r.Random(seed)
+        self.orders = {}
+
+    def begin(self):
+        self.trace = []
+        self.runs += 1
+
+    def _decide(self, options):
+        k = len(self.trace)
+        n = len(options)
+        if n == 1:
+            return options[0]
+        # a fixed random order per (depth, option set): no bias towards low thread indices, still exhaustive
+        key = (k, tuple(options))
+        if key not in self.orders:
+            o = list(options)
+            self.perm.shuffle(o)
+            self.orders[key] = o
+        order = self.orders[key]
+        c = self.prefix[k] if k < len(self.prefix) else 0
+        if c >= n:
+            c = 0
+        self.trace.append((n, c))
+        return order[c]
+
+    def pick_thread(self, sch, en, last):
+        if last is not None and last in en and not str(sch.info[last]).startswith(("cond:", "wait:", "flock")):
+            return last
+        return self._decide(sorted(en))
+
+    def choice(self, waiters):          # stands in for rng.choice in CondStandIn.notify
+        return self._decide(list(waiters))
+
+    def random(self):
+        return 1.0
+
+    def done(self):
+        """prepare the next run; True when the tree is exhausted or the budget is spent"""
+        t = self.trace
+        while t and t[-1][1] + 1 >= t[-1][0]:
+            t = t[:-1]
+        if not t:
+            self.complete = True
+            return True
+        self.prefix = [c for _, c in t[:-1]] + [t[-1][1] + 1]
+        return self.runs >= self.budget
+
+
+def run_schedule(u, setup, calls, schedule=None, rng=None, mode="th", pids=None, fmts=None, max_steps=5000, env=None, sticky=0.0, on_step=None, dfs=None):
     """Drive [calls] concurrently after [setup].  schedule: list of thread indices (one per operation), or None for a
     random schedule drawn from rng.  -> dict(outcomes, state, locks, steps, ops per thread, schedule_used, status)"""
     import os
@@ -249,7 +305,9 @@ def run_schedule(u, setup, calls, schedule=None, rng=None, mode="th", pids=None,
             im.call(c)
         fsmon.install()
         im.refresh()
-        sch = Scheduler(im, [dict(c) for c in calls], mode, rng)
+        sch = Scheduler(im, [dict(c) for c in calls], mode, dfs if dfs is not None else rng)
+        if dfs is not None:
+            dfs.begin()
         with fsmon.watching(im.root, hook=sch.hook, listdir_sort=tr.make_listdir_sorter(im)) as mon:
             mon.emulate_flock = True
             sch.start()
@@ -269,7 +327,9 @@ def run_schedule(u, setup, calls, schedule=None, rng=None, mode="th", pids=None,
                         if not en:
                             status = "deadlock:" + ",".join("%d=%s(%s)" % (j, sch.state[j], sch.info[j]) for j in range(sch.n))
                             break
-                        if rng is None:
+                        if dfs is not None:
+                            i = dfs.pick_thread(sch, en, used[-1] if used else None)
+                        elif rng is None:
                             i = en[0]
                         elif sticky and used and used[-1] in en and rng.random() < sticky:
                             i = used[-1]            # long runs of one thread: preemptions are few and land anywhere
